@@ -277,112 +277,6 @@ Proof.
   - destruct ta; cbn in E; discriminate.
 Qed.
 
-Record shape := Shape { sh_recv : option (bool * str * option str); sh_name : str; sh_sfx : sfx }.
-
-Definition recv_part (r : option (bool * str * option str)) : str :=
-  match r with None => [] | Some (ptr, t, ta) => recv_str ptr t ta ++ [c_dot] end.
-Definition shape_str (s : shape) : str := recv_part (sh_recv s) ++ sh_name s ++ sfx_str (sh_sfx s).
-Definition recv_ok (r : option (bool * str * option str)) : bool :=
-  match r with None => true | Some (_, t, ta) => wf_ident t && ok_targs ta end.
-Definition shape_ok (s : shape) : bool := recv_ok (sh_recv s) && wf_ident (sh_name s) && sfx_ok (sh_sfx s).
-
-Lemma nonident_lb_rp c : c = c_lb \/ c = c_rp \/ c = c_dot \/ c = c_lp -> nonident c = true.
-Proof. intros [->|[->|[->| ->]]]; reflexivity. Qed.
-
-Lemma brk_then_head ta c z : nonident c = true -> headD nonident (brk ta ++ [c] ++ z).
-Proof. destruct ta; cbn; auto. Qed.
-
-Lemma recv_inj p1 t1 ta1 y1 p2 t2 ta2 y2 :
-  wf_ident t1 = true -> wf_ident t2 = true -> ok_targs ta1 = true -> ok_targs ta2 = true ->
-  recv_str p1 t1 ta1 ++ [c_dot] ++ y1 = recv_str p2 t2 ta2 ++ [c_dot] ++ y2 ->
-  p1 = p2 /\ t1 = t2 /\ ta1 = ta2 /\ y1 = y2.
-Proof.
-  intros W1 W2 O1 O2 E. destruct p1, p2; cbn in E.
-  - injection E as E. rewrite <- !app_assoc in E.
-    destruct (ident_split t1 t2 _ _ W1 W2 (brk_then_head ta1 c_rp _ eq_refl) (brk_then_head ta2 c_rp _ eq_refl) E) as [-> E2].
-    destruct (brk_split ta1 ta2 c_rp _ _ O1 O2 ltac:(discriminate) E2) as [-> E3].
-    injection E3 as ->. auto.
-  - exfalso. destruct (wf_ident_head _ W2) as (c & r & -> & I). cbn in E. injection E as <- _. discriminate.
-  - exfalso. destruct (wf_ident_head _ W1) as (c & r & -> & I). cbn in E. injection E as -> _. discriminate.
-  - rewrite <- !app_assoc in E.
-    destruct (ident_split t1 t2 _ _ W1 W2 (brk_then_head ta1 c_dot _ eq_refl) (brk_then_head ta2 c_dot _ eq_refl) E) as [-> E2].
-    destruct (brk_split ta1 ta2 c_dot _ _ O1 O2 ltac:(discriminate) E2) as [-> E3]. auto.
-Qed.
-
-Lemma shape_inj s1 s2 : shape_ok s1 = true -> shape_ok s2 = true ->
-  shape_str s1 = shape_str s2 -> s1 = s2.
-Proof.
-  destruct s1 as [r1 n1 x1], s2 as [r2 n2 x2]. unfold shape_ok, shape_str. cbn [sh_recv sh_name sh_sfx].
-  rewrite !andb_true_iff. intros [[R1 N1] X1] [[R2 N2] X2] E.
-  destruct r1 as [[[p1 t1] ta1]|], r2 as [[[p2 t2] ta2]|]; cbn [recv_part recv_ok] in *.
-  - apply andb_true_iff in R1 as [T1 O1]. apply andb_true_iff in R2 as [T2 O2].
-    rewrite <- !app_assoc in E.
-    destruct (recv_inj _ _ _ _ _ _ _ _ T1 T2 O1 O2 E) as (-> & -> & -> & E2).
-    destruct (ident_split _ _ _ _ N1 N2 (sfx_head x1) (sfx_head x2) E2) as [-> E3].
-    apply sfx_inj in E3. now subst.
-  - exfalso. apply andb_true_iff in R1 as [T1 O1]. rewrite <- !app_assoc in E. destruct p1; cbn in E.
-    + destruct (wf_ident_head _ N2) as (c & r & -> & I). cbn in E. injection E as <- _. discriminate.
-    + rewrite <- !app_assoc in E.
-      destruct (ident_split _ _ _ _ T1 N2 (brk_then_head ta1 c_dot _ eq_refl) (sfx_head x2) E) as [-> E2].
-      symmetry in E2. exact (sfx_not_recv_rest x2 ta1 _ X2 O1 E2).
-  - exfalso. apply andb_true_iff in R2 as [T2 O2]. rewrite <- !app_assoc in E. destruct p2; cbn in E.
-    + destruct (wf_ident_head _ N1) as (c & r & -> & I). cbn in E. injection E as -> _. discriminate.
-    + rewrite <- !app_assoc in E.
-      destruct (ident_split _ _ _ _ N1 T2 (sfx_head x1) (brk_then_head ta2 c_dot _ eq_refl) E) as [-> E2].
-      exact (sfx_not_recv_rest x1 ta2 _ X1 O2 E2).
-  - cbn in E. destruct (ident_split _ _ _ _ N1 N2 (sfx_head x1) (sfx_head x2) E) as [-> E3].
-    apply sfx_inj in E3. now subst.
-Qed.
-
-(* ---------- from entities to shapes ---------- *)
-
-Definition pkg_of (c : core (option str)) : str :=
-  match c with
-  | EFunc p _ _ _ | EMethod p _ _ _ _ _ | EGlobal p _ | EInit p _ | ERoutine p _ => p
-  | EWrap cp _ _ _ _ _ _ => cp
-  end.
-
-Definition shape_of (c : core (option str)) : shape :=
-  match c with
-  | EFunc _ f cl ta => Shape None f (SClos cl ta)
-  | EMethod _ ptr t ta m cl => Shape (Some (ptr, t, ta)) m (SClos cl (match cl with [] => None | _ => ta end))
-  | EWrap _ k _ ptr t ta m => Shape (Some (ptr, t, ta)) m (SWk k)
-  | EGlobal _ v => Shape None v (SClos [] None)
-  | EInit _ n => Shape None s_init (SHash n)
-  | ERoutine _ n => Shape None s_routine (SClos [n] None)
-  end.
-
-Ltac split_ands :=
-  repeat match goal with
-         | H : _ && _ = true |- _ => apply andb_true_iff in H; destruct H
-         end.
-
-Lemma ok_path_wf p : ok_path p = true -> wf_path p = true.
-Proof. unfold ok_path. intros H. split_ands. auto. Qed.
-Lemma ok_ident_wf s : ok_ident s = true -> wf_ident s = true.
-Proof. unfold ok_ident. intros H. split_ands. auto. Qed.
-
-Lemma wf_core_pkg c : wf_core c = true -> ok_path (pkg_of c) = true.
-Proof. destruct c; cbn; intros H; split_ands; auto. Qed.
-
-Lemma name_of_shape c : wf_core c = true ->
-  name_of c = pkg_of c ++ [c_dot] ++ shape_str (shape_of c).
-Proof.
-  intros W. pose proof (wf_core_pkg _ W) as P. apply ok_path_wf in P.
-  destruct (wf_path_parts _ P) as (_ & _ & PO).
-  destruct c; cbn [name_of pkg_of shape_of] in *; unfold shape_str; cbn [sh_recv sh_name sh_sfx recv_part sfx_str];
-    rewrite ?PO; cbn [app]; rewrite <- ?app_assoc; cbn [app]; rewrite ?app_nil_r; try reflexivity.
-  - destruct clos; reflexivity.
-  - unfold clos_str. cbn [flat_map]. now rewrite app_nil_r.
-Qed.
-
-Lemma shape_of_ok c : wf_core c = true -> shape_ok (shape_of c) = true.
-Proof.
-  destruct c; cbn; intros H; split_ands; unfold shape_ok; cbn;
-    rewrite ?andb_true_iff; repeat split; auto using ok_ident_wf.
-  destruct clos; auto.
-Qed.
-
 Lemma nonpath_nonident c : nonpath c = true -> nonident c = true.
 Proof.
   unfold nonpath, nonident, path_char. rewrite !negb_true_iff. intros H.
@@ -398,6 +292,205 @@ Proof.
   - eapply free_weaken; [|exact W]. apply slash_nonident.
 Qed.
 
+Lemma wf_path_head q : wf_path q = true -> exists c r, q = c :: r /\ path_char c = true.
+Proof.
+  unfold wf_path. rewrite !andb_true_iff. intros [[[A B] _] _].
+  destruct q as [|c r]; [discriminate|]. cbn in B. apply andb_true_iff in B as [B _]. eauto.
+Qed.
+
+(* receiver of a method or wrapper: pointer?, qualifying package path (fixed wrappers for a
+   foreign receiver type only), type name, text of the type arguments *)
+Definition rcv := (bool * option str * str * option str)%type.
+Record shape := Shape { sh_recv : option rcv; sh_name : str; sh_sfx : sfx }.
+
+Definition rcv_str (r : rcv) : str :=
+  match r with
+  | (ptr, None, t, ta) => recv_str ptr t ta
+  | (ptr, Some q, t, ta) => qrecv_str ptr q t ta
+  end.
+Definition recv_part (r : option rcv) : str :=
+  match r with None => [] | Some r => rcv_str r ++ [c_dot] end.
+Definition shape_str (s : shape) : str := recv_part (sh_recv s) ++ sh_name s ++ sfx_str (sh_sfx s).
+Definition q_ok (q : option str) : bool := match q with None => true | Some q => wf_path q end.
+Definition rcv_ok (r : rcv) : bool := match r with (_, q, t, ta) => wf_ident t && ok_targs ta && q_ok q end.
+Definition recv_ok (r : option rcv) : bool := match r with None => true | Some r => rcv_ok r end.
+Definition shape_ok (s : shape) : bool := recv_ok (sh_recv s) && wf_ident (sh_name s) && sfx_ok (sh_sfx s).
+
+Lemma brk_then_head ta c z : nonident c = true -> headD nonident (brk ta ++ [c] ++ z).
+Proof. destruct ta; cbn; auto. Qed.
+Lemma brk_rp_head ta z : headD nonpath (brk ta ++ [c_rp] ++ z).
+Proof. destruct ta; reflexivity. Qed.
+
+Definition body (q : option str) (t : str) : str :=
+  match q with None => t | Some q => q ++ [c_dot] ++ t end.
+
+Lemma body_split q1 t1 R1 q2 t2 R2 :
+  q_ok q1 = true -> q_ok q2 = true -> wf_ident t1 = true -> wf_ident t2 = true ->
+  headD nonpath R1 -> headD nonpath R2 ->
+  body q1 t1 ++ R1 = body q2 t2 ++ R2 -> q1 = q2 /\ t1 = t2 /\ R1 = R2.
+Proof.
+  intros Q1 Q2 T1 T2 H1 H2 E.
+  destruct (wf_ident_pathfree _ T1) as [P1 S1]. destruct (wf_ident_pathfree _ T2) as [P2 S2].
+  destruct q1 as [q1|], q2 as [q2|]; cbn [body q_ok] in *.
+  - rewrite <- !app_assoc in E.
+    destruct (path_split _ _ _ _ _ _ Q1 Q2 P1 S1 P2 S2 H1 H2 E) as (-> & -> & ->). auto.
+  - exfalso. destruct (wf_path_parts _ Q1) as (C1 & _ & _).
+    assert (G : free nonpath (q1 ++ [c_dot] ++ t1)) by fr.
+    destruct (split_first nonpath _ _ _ _ G P2 H1 H2 E) as [E1 _].
+    apply wf_ident_free in T2. rewrite <- E1 in T2.
+    apply free_app in T2 as [_ T2]. apply free_app in T2 as [T2 _]. discriminate.
+  - exfalso. destruct (wf_path_parts _ Q2) as (C2 & _ & _).
+    assert (G : free nonpath (q2 ++ [c_dot] ++ t2)) by fr.
+    destruct (split_first nonpath _ _ _ _ P1 G H1 H2 E) as [E1 _].
+    apply wf_ident_free in T1. rewrite E1 in T1.
+    apply free_app in T1 as [_ T1]. apply free_app in T1 as [T1 _]. discriminate.
+  - destruct (split_first nonpath _ _ _ _ P1 P2 H1 H2 E) as [-> ->]. auto.
+Qed.
+
+(* the parenthesised forms, after the opening parenthesis (and star) *)
+Lemma paren_inj q1 t1 ta1 y1 q2 t2 ta2 y2 :
+  q_ok q1 = true -> q_ok q2 = true -> wf_ident t1 = true -> wf_ident t2 = true ->
+  ok_targs ta1 = true -> ok_targs ta2 = true ->
+  body q1 t1 ++ brk ta1 ++ [c_rp] ++ y1 = body q2 t2 ++ brk ta2 ++ [c_rp] ++ y2 ->
+  q1 = q2 /\ t1 = t2 /\ ta1 = ta2 /\ y1 = y2.
+Proof.
+  intros Q1 Q2 T1 T2 O1 O2 E.
+  destruct (body_split _ _ _ _ _ _ Q1 Q2 T1 T2 (brk_rp_head ta1 y1) (brk_rp_head ta2 y2) E) as (-> & -> & E2).
+  destruct (brk_split ta1 ta2 c_rp _ _ O1 O2 ltac:(discriminate) E2) as [-> ->]. auto.
+Qed.
+
+Lemma rcv_str_ptr q t ta : rcv_str (true, q, t, ta) = s_lpstar ++ body q t ++ brk ta ++ [c_rp].
+Proof. destruct q; cbn [rcv_str recv_str qrecv_str body]; rewrite <- ?app_assoc; reflexivity. Qed.
+Lemma rcv_str_q q t ta : rcv_str (false, Some q, t, ta) = [c_lp] ++ body (Some q) t ++ brk ta ++ [c_rp].
+Proof. cbn [rcv_str qrecv_str body]. rewrite <- ?app_assoc. reflexivity. Qed.
+
+Lemma rcv_inj r1 y1 r2 y2 : rcv_ok r1 = true -> rcv_ok r2 = true ->
+  rcv_str r1 ++ [c_dot] ++ y1 = rcv_str r2 ++ [c_dot] ++ y2 -> r1 = r2 /\ y1 = y2.
+Proof.
+  destruct r1 as [[[p1 q1] t1] ta1], r2 as [[[p2 q2] t2] ta2]. unfold rcv_ok. rewrite !andb_true_iff.
+  intros [[T1 O1] Q1] [[T2 O2] Q2] E.
+  destruct p1, p2.
+  - rewrite !rcv_str_ptr in E. rewrite <- !app_assoc in E. apply app_inv_head in E.
+    destruct (paren_inj _ _ _ _ _ _ _ _ Q1 Q2 T1 T2 O1 O2 E) as (-> & -> & -> & E2).
+    injection E2 as ->. auto.
+  - exfalso. rewrite rcv_str_ptr in E. destruct q2 as [q2|].
+    + rewrite rcv_str_q in E. cbn [q_ok] in Q2. destruct (wf_path_head _ Q2) as (c & r & -> & C).
+      cbn in E. injection E as E _. subst c. discriminate.
+    + cbn [rcv_str recv_str] in E. destruct (wf_ident_head _ T2) as (c & r & -> & C).
+      cbn in E. injection E as E _. subst c. discriminate.
+  - exfalso. rewrite rcv_str_ptr in E. destruct q1 as [q1|].
+    + rewrite rcv_str_q in E. cbn [q_ok] in Q1. destruct (wf_path_head _ Q1) as (c & r & -> & C).
+      cbn in E. injection E as E _. subst c. discriminate.
+    + cbn [rcv_str recv_str] in E. destruct (wf_ident_head _ T1) as (c & r & -> & C).
+      cbn in E. injection E as E _. subst c. discriminate.
+  - destruct q1 as [q1|], q2 as [q2|].
+    + rewrite !rcv_str_q in E. rewrite <- !app_assoc in E. apply app_inv_head in E.
+      destruct (paren_inj _ _ _ _ _ _ _ _ Q1 Q2 T1 T2 O1 O2 E) as (-> & -> & -> & E2).
+      injection E2 as ->. auto.
+    + exfalso. rewrite rcv_str_q in E. cbn [rcv_str recv_str] in E.
+      destruct (wf_ident_head _ T2) as (c & r & -> & C). cbn in E. injection E as E _. subst c. discriminate.
+    + exfalso. rewrite rcv_str_q in E. cbn [rcv_str recv_str] in E.
+      destruct (wf_ident_head _ T1) as (c & r & -> & C). cbn in E. injection E as E _. subst c. discriminate.
+    + cbn [rcv_str recv_str] in E. rewrite <- !app_assoc in E.
+      destruct (ident_split t1 t2 _ _ T1 T2 (brk_then_head ta1 c_dot _ eq_refl) (brk_then_head ta2 c_dot _ eq_refl) E) as [-> E2].
+      destruct (brk_split ta1 ta2 c_dot _ _ O1 O2 ltac:(discriminate) E2) as [-> ->]. auto.
+Qed.
+
+(* every receiver form except the bare T[targs] starts with an opening parenthesis *)
+Definition bare (r : rcv) : bool := match r with (false, None, _, _) => true | _ => false end.
+Lemma rcv_paren r : bare r = false -> exists z, rcv_str r = c_lp :: z.
+Proof.
+  destruct r as [[[p q] t] ta]. destruct p.
+  - intros _. rewrite rcv_str_ptr. eexists. reflexivity.
+  - destruct q; [|discriminate]. intros _. rewrite rcv_str_q. eexists. reflexivity.
+Qed.
+
+Lemma recv_vs_name r n1 x1 n2 x2 :
+  rcv_ok r = true -> wf_ident n2 = true -> sfx_ok x2 = true ->
+  rcv_str r ++ [c_dot] ++ n1 ++ sfx_str x1 = n2 ++ sfx_str x2 -> False.
+Proof.
+  intros R N2 X2 E. destruct (bare r) eqn:B.
+  - destruct r as [[[p q] t] ta]. destruct p; [discriminate|]. destruct q; [discriminate|].
+    unfold rcv_ok in R. rewrite !andb_true_iff in R. destruct R as [[T O] _].
+    cbn [rcv_str recv_str] in E. rewrite <- !app_assoc in E.
+    destruct (ident_split _ _ _ _ T N2 (brk_then_head ta c_dot _ eq_refl) (sfx_head x2) E) as [-> E2].
+    symmetry in E2. exact (sfx_not_recv_rest x2 ta _ X2 O E2).
+  - destruct (rcv_paren _ B) as (z & Z). rewrite Z in E.
+    destruct (wf_ident_head _ N2) as (c & r' & -> & C). cbn in E. injection E as E _. subst c. discriminate.
+Qed.
+
+Lemma shape_inj s1 s2 : shape_ok s1 = true -> shape_ok s2 = true ->
+  shape_str s1 = shape_str s2 -> s1 = s2.
+Proof.
+  destruct s1 as [r1 n1 x1], s2 as [r2 n2 x2]. unfold shape_ok, shape_str. cbn [sh_recv sh_name sh_sfx].
+  rewrite !andb_true_iff. intros [[R1 N1] X1] [[R2 N2] X2] E.
+  destruct r1 as [r1|], r2 as [r2|]; cbn [recv_part recv_ok] in *.
+  - rewrite <- !app_assoc in E.
+    destruct (rcv_inj _ _ _ _ R1 R2 E) as (-> & E2).
+    destruct (ident_split _ _ _ _ N1 N2 (sfx_head x1) (sfx_head x2) E2) as [-> E3].
+    apply sfx_inj in E3. now subst.
+  - exfalso. rewrite <- !app_assoc in E. exact (recv_vs_name _ _ _ _ _ R1 N2 X2 E).
+  - exfalso. rewrite <- !app_assoc in E. symmetry in E. exact (recv_vs_name _ _ _ _ _ R2 N1 X1 E).
+  - cbn in E. destruct (ident_split _ _ _ _ N1 N2 (sfx_head x1) (sfx_head x2) E) as [-> E3].
+    apply sfx_inj in E3. now subst.
+Qed.
+
+(* ---------- from entities to shapes ---------- *)
+
+Definition pkg_of (c : core (option str)) : str :=
+  match c with
+  | EFunc p _ _ _ | EMethod p _ _ _ _ _ | EGlobal p _ | EInit p _ | ERoutine p _ => p
+  | EWrap cp _ _ _ _ _ _ => cp
+  end.
+
+Definition wrap_q (fixed : bool) (cp rp : str) : option str :=
+  if fixed && negb (str_eqb (path_of rp) (path_of cp)) then Some (path_of rp) else None.
+
+Definition shape_of (fixed : bool) (c : core (option str)) : shape :=
+  match c with
+  | EFunc _ f cl ta => Shape None f (SClos cl ta)
+  | EMethod _ ptr t ta m cl => Shape (Some (ptr, None, t, ta)) m (SClos cl (match cl with [] => None | _ => ta end))
+  | EWrap cp k rp ptr t ta m => Shape (Some (ptr, wrap_q fixed cp rp, t, ta)) m (SWk k)
+  | EGlobal _ v => Shape None v (SClos [] None)
+  | EInit _ n => Shape None s_init (SHash n)
+  | ERoutine _ n => Shape None s_routine (SClos [n] None)
+  end.
+
+Ltac split_ands :=
+  repeat match goal with
+         | H : _ && _ = true |- _ => apply andb_true_iff in H; destruct H
+         end.
+
+Lemma ok_path_wf p : ok_path p = true -> wf_path p = true.
+Proof. unfold ok_path. intros H. split_ands. auto. Qed.
+Lemma ok_path_of p : ok_path p = true -> path_of p = p.
+Proof. intros H. apply ok_path_wf in H. now destruct (wf_path_parts _ H) as (_ & _ & ?). Qed.
+Lemma ok_ident_wf s : ok_ident s = true -> wf_ident s = true.
+Proof. unfold ok_ident. intros H. split_ands. auto. Qed.
+
+Lemma wf_core_pkg c : wf_core c = true -> ok_path (pkg_of c) = true.
+Proof. destruct c; cbn; intros H; split_ands; auto. Qed.
+
+Lemma name_of_shape fixed c : wf_core c = true ->
+  name_of fixed c = pkg_of c ++ [c_dot] ++ shape_str (shape_of fixed c).
+Proof.
+  intros W. pose proof (wf_core_pkg _ W) as P. apply ok_path_of in P.
+  destruct c; cbn [name_of pkg_of shape_of] in *; unfold shape_str; cbn [sh_recv sh_name sh_sfx recv_part sfx_str rcv_str];
+    rewrite ?P; cbn [app]; rewrite <- ?app_assoc; cbn [app]; rewrite ?app_nil_r; try reflexivity.
+  - destruct clos; reflexivity.
+  - unfold wrap_recv_str, wrap_q. destruct (fixed && negb (str_eqb (path_of rpkg) (path_of cpkg)));
+      cbn [rcv_str]; rewrite <- ?app_assoc; reflexivity.
+  - unfold clos_str. cbn [flat_map]. now rewrite app_nil_r.
+Qed.
+
+Lemma shape_of_ok fixed c : wf_core c = true -> shape_ok (shape_of fixed c) = true.
+Proof.
+  destruct c; cbn; intros H; split_ands; unfold shape_ok; cbn;
+    rewrite ?andb_true_iff; repeat split; auto using ok_ident_wf.
+  - destruct clos; auto.
+  - unfold wrap_q. destruct (fixed && _); cbn; auto. rewrite (ok_path_of _ H3). now apply ok_path_wf.
+Qed.
+
 (* the tail after the path: path characters without a slash, then a character outside paths *)
 Lemma shape_wr s : shape_ok s = true ->
   exists w r, shape_str s = w ++ r /\ free nonpath w /\ free is_slash w /\ headD nonpath r.
@@ -405,12 +498,12 @@ Proof.
   destruct s as [r n x]. unfold shape_ok, shape_str. cbn [sh_recv sh_name sh_sfx].
   rewrite !andb_true_iff. intros [[R N1] X].
   destruct (wf_ident_pathfree _ N1) as [Np Ns].
-  destruct r as [[[p t] ta]|]; cbn [recv_part recv_ok] in *.
-  - apply andb_true_iff in R as [T O]. destruct (wf_ident_pathfree _ T) as [Tp Ts].
-    destruct p; cbn [recv_str].
-    + exists [], ((s_lpstar ++ t ++ brk ta ++ [c_rp]) ++ [c_dot] ++ n ++ sfx_str x).
-      repeat split; try reflexivity. cbn [app]. now rewrite <- !app_assoc.
-    + destruct ta as [b|]; cbn [brk].
+  destruct r as [r|]; cbn [recv_part recv_ok] in *.
+  - destruct (bare r) eqn:B.
+    + destruct r as [[[p q] t] ta]. destruct p; [discriminate|]. destruct q; [discriminate|].
+      unfold rcv_ok in R. rewrite !andb_true_iff in R. destruct R as [[T O] _].
+      destruct (wf_ident_pathfree _ T) as [Tp Ts]. cbn [rcv_str recv_str].
+      destruct ta as [b|]; cbn [brk].
       * exists t, (([c_lb] ++ b ++ [c_rb]) ++ [c_dot] ++ n ++ sfx_str x).
         repeat split; auto. now rewrite <- !app_assoc.
       * exists (t ++ [c_dot] ++ n), (sfx_str x). repeat split.
@@ -418,14 +511,16 @@ Proof.
         -- fr.
         -- fr.
         -- apply sfx_head_nonpath.
+    + destruct (rcv_paren _ B) as (z & Z). exists [], ((rcv_str r ++ [c_dot]) ++ n ++ sfx_str x).
+      repeat split; try reflexivity. rewrite Z. reflexivity.
   - exists n, (sfx_str x). repeat split; auto. apply sfx_head_nonpath.
 Qed.
 
-Lemma name_of_inj a b : wf_core a = true -> wf_core b = true ->
-  name_of a = name_of b -> pkg_of a = pkg_of b /\ shape_of a = shape_of b.
+Lemma name_of_inj fixed a b : wf_core a = true -> wf_core b = true ->
+  name_of fixed a = name_of fixed b -> pkg_of a = pkg_of b /\ shape_of fixed a = shape_of fixed b.
 Proof.
-  intros Wa Wb E. rewrite (name_of_shape _ Wa), (name_of_shape _ Wb) in E.
-  pose proof (shape_of_ok _ Wa) as Sa. pose proof (shape_of_ok _ Wb) as Sb.
+  intros Wa Wb E. rewrite (name_of_shape _ _ Wa), (name_of_shape _ _ Wb) in E.
+  pose proof (shape_of_ok fixed _ Wa) as Sa. pose proof (shape_of_ok fixed _ Wb) as Sb.
   destruct (shape_wr _ Sa) as (w1 & r1 & E1 & P1 & S1 & H1).
   destruct (shape_wr _ Sb) as (w2 & r2 & E2 & P2 & S2 & H2).
   pose proof (ok_path_wf _ (wf_core_pkg _ Wa)) as Pa. pose proof (ok_path_wf _ (wf_core_pkg _ Wb)) as Pb.
@@ -437,11 +532,12 @@ Qed.
 Lemma routine_not_ok : ok_ident s_routine = false.
 Proof. reflexivity. Qed.
 
+(* before the fix: the receiver package of a wrapper is not in the shape *)
 Lemma shape_to_core a b : wf_core a = true -> wf_core b = true ->
-  pkg_of a = pkg_of b -> shape_of a = shape_of b -> erase a = erase b \/ scope_clash a b.
+  pkg_of a = pkg_of b -> shape_of false a = shape_of false b -> erase a = erase b \/ scope_clash a b.
 Proof.
   intros Wa Wb Ep Es.
-  destruct a, b; cbn [pkg_of shape_of] in *; subst; try discriminate; injection Es as Es; subst;
+  destruct a, b; cbn [pkg_of shape_of wrap_q andb] in *; subst; try discriminate; injection Es as Es; subst;
     cbn [wf_core] in *; split_ands;
     try (left; reflexivity);
     try (match goal with H : ok_ident s_routine = true |- _ => rewrite routine_not_ok in H; discriminate end).
@@ -453,12 +549,44 @@ Proof.
   all: try discriminate.
 Qed.
 
+Definition is_wrap (c : core (option str)) : bool := match c with EWrap _ _ _ _ _ _ _ => true | _ => false end.
+Lemma shape_of_nonwrap fixed c : is_wrap c = false -> shape_of fixed c = shape_of false c.
+Proof. destruct c; cbn; auto. discriminate. Qed.
+Lemma erase_nonwrap c : is_wrap c = false -> erase c = c.
+Proof. destruct c; cbn; auto. discriminate. Qed.
+
+(* with the fix: the shape determines the entity *)
+Lemma shape_to_core_fixed a b : wf_core a = true -> wf_core b = true ->
+  pkg_of a = pkg_of b -> shape_of true a = shape_of true b -> a = b \/ scope_clash a b.
+Proof.
+  intros Wa Wb Ep Es.
+  destruct (is_wrap a) eqn:Ia, (is_wrap b) eqn:Ib.
+  - left. destruct a; try discriminate. destruct b; try discriminate.
+    cbn [pkg_of shape_of wf_core] in *. subst. split_ands.
+    unfold wrap_q in Es. cbn [andb] in Es.
+    repeat match goal with H : ok_path _ = true |- _ => rewrite (ok_path_of _ H) in Es; revert H end. intros.
+    destruct (str_eqb rpkg cpkg0) eqn:E1, (str_eqb rpkg0 cpkg0) eqn:E2; cbn [negb] in Es; try discriminate.
+    + apply str_eqb_eq in E1, E2. subst. injection Es as -> -> -> -> ->. reflexivity.
+    + injection Es as -> -> -> -> -> ->. reflexivity.
+  - exfalso. destruct a; try discriminate. destruct b; cbn in *; discriminate.
+  - exfalso. destruct b; try discriminate. destruct a; cbn in *; discriminate.
+  - rewrite (shape_of_nonwrap _ _ Ia), (shape_of_nonwrap _ _ Ib) in Es.
+    destruct (shape_to_core a b Wa Wb Ep Es) as [H|H]; auto.
+    rewrite (erase_nonwrap _ Ia), (erase_nonwrap _ Ib) in H. auto.
+Qed.
+
 (* ---------- the string-level injectivity of name_of ---------- *)
 
-Lemma name_of_injective a b : wf_core a = true -> wf_core b = true ->
-  name_of a = name_of b -> erase a = erase b \/ scope_clash a b.
+Lemma name_of_injective_unfixed a b : wf_core a = true -> wf_core b = true ->
+  name_of false a = name_of false b -> erase a = erase b \/ scope_clash a b.
 Proof.
-  intros Wa Wb E. destruct (name_of_inj a b Wa Wb E) as [Ep Es]. now apply shape_to_core.
+  intros Wa Wb E. destruct (name_of_inj false a b Wa Wb E) as [Ep Es]. now apply shape_to_core.
+Qed.
+
+Lemma name_of_injective a b : wf_core a = true -> wf_core b = true ->
+  name_of true a = name_of true b -> a = b \/ scope_clash a b.
+Proof.
+  intros Wa Wb E. destruct (name_of_inj true a b Wa Wb E) as [Ep Es]. now apply shape_to_core_fixed.
 Qed.
 
 (* ---------- stubs ---------- *)
@@ -480,18 +608,18 @@ Proof.
     destruct (IH _ H) as (x & ->). exists x. reflexivity.
 Qed.
 
-Lemma core_not_stub c x : wf_core c = true -> name_of c = s_stub ++ x -> False.
+Lemma core_not_stub fixed c x : wf_core c = true -> name_of fixed c = s_stub ++ x -> False.
 Proof.
-  intros W E. rewrite (name_of_shape _ W) in E. pose proof (wf_core_pkg _ W) as P.
+  intros W E. rewrite (name_of_shape _ _ W) in E. pose proof (wf_core_pkg _ W) as P.
   unfold ok_path in P. apply andb_true_iff in P as [P P3]. apply andb_true_iff in P as [P1 P2].
   apply negb_true_iff in P2.
   change s_stub with (s_stub0 ++ [c_dot]) in E. rewrite <- app_assoc in E.
   pose proof (prefix_or_char _ _ _ _ _ P2 E) as I. cbn in I. intuition discriminate.
 Qed.
 
-Lemma core_not_llgo c s : wf_core c = true -> has_prefix s_llgo_ s = true -> name_of c = s -> False.
+Lemma core_not_llgo fixed c s : wf_core c = true -> has_prefix s_llgo_ s = true -> name_of fixed c = s -> False.
 Proof.
-  intros W Hs E. rewrite (name_of_shape _ W) in E. pose proof (wf_core_pkg _ W) as P.
+  intros W Hs E. rewrite (name_of_shape _ _ W) in E. pose proof (wf_core_pkg _ W) as P.
   unfold ok_path in P. apply andb_true_iff in P as [P P3]. apply negb_true_iff in P3.
   destruct (has_prefix_app _ _ Hs) as (x & ->).
   pose proof (prefix_or_char _ _ _ _ _ P3 E) as I. cbn in I. intuition discriminate.
@@ -506,38 +634,45 @@ Definition wf_entity (e : entity (option str)) : bool :=
   | EStubPtr s => has_prefix s_llgo_ s     (* abi.FuncName: _llgo_func$hash *)
   end.
 
-(* what equal names guarantee *)
-Definition same_entity (e1 e2 : entity (option str)) : Prop :=
+(* what equal names guarantee: with the fix the rendered entities are equal; before it they
+   are equal up to the receiver package of a wrapper *)
+Definition same_core (fixed : bool) (a b : core (option str)) : Prop :=
+  (if fixed then a = b else erase a = erase b) \/ scope_clash a b.
+Definition same_entity (fixed : bool) (e1 e2 : entity (option str)) : Prop :=
   match e1, e2 with
-  | ECore a, ECore b | EStubDecl a, EStubDecl b => erase a = erase b \/ scope_clash a b
+  | ECore a, ECore b | EStubDecl a, EStubDecl b => same_core fixed a b
   | EStubPtr s1, EStubPtr s2 => s1 = s2
   | _, _ => False
   end.
 
-Lemma link_name_injective_lemma e1 e2 :
+Lemma name_of_injective_any fixed a b : wf_core a = true -> wf_core b = true ->
+  name_of fixed a = name_of fixed b -> same_core fixed a b.
+Proof. destruct fixed; [apply name_of_injective|apply name_of_injective_unfixed]. Qed.
+
+Lemma link_name_injective_lemma fixed e1 e2 :
   wf_entity (render_ent e1) = true -> wf_entity (render_ent e2) = true ->
-  link_name e1 = link_name e2 -> same_entity (render_ent e1) (render_ent e2).
+  link_name fixed e1 = link_name fixed e2 -> same_entity fixed (render_ent e1) (render_ent e2).
 Proof.
   destruct e1 as [a|a|s1], e2 as [b|b|s2]; cbn [render_ent wf_entity link_name same_entity]; unfold core_name; intros W1 W2 E.
-  - now apply name_of_injective.
-  - exact (core_not_stub _ _ W1 E).
-  - exact (core_not_stub _ _ W1 E).
-  - symmetry in E. exact (core_not_stub _ _ W2 E).
-  - apply app_inv_head in E. now apply name_of_injective.
-  - apply app_inv_head in E. exact (core_not_llgo _ _ W1 W2 E).
-  - symmetry in E. exact (core_not_stub _ _ W2 E).
-  - apply app_inv_head in E. symmetry in E. exact (core_not_llgo _ _ W2 W1 E).
+  - now apply name_of_injective_any.
+  - exact (core_not_stub _ _ _ W1 E).
+  - exact (core_not_stub _ _ _ W1 E).
+  - symmetry in E. exact (core_not_stub _ _ _ W2 E).
+  - apply app_inv_head in E. now apply name_of_injective_any.
+  - apply app_inv_head in E. exact (core_not_llgo _ _ _ W1 W2 E).
+  - symmetry in E. exact (core_not_stub _ _ _ W2 E).
+  - apply app_inv_head in E. symmetry in E. exact (core_not_llgo _ _ _ W2 W1 E).
   - now apply app_inv_head in E.
 Qed.
 
 (* instances (the mergeable definitions): one name, one rendered entity *)
-Lemma mergeable_lemma a b :
+Lemma mergeable_lemma fixed a b :
   is_instance a = true -> is_instance b = true ->
   wf_core (render a) = true -> wf_core (render b) = true ->
-  core_name a = core_name b -> render a = render b.
+  core_name fixed a = core_name fixed b -> render a = render b.
 Proof.
-  intros Ia Ib Wa Wb E. destruct (name_of_injective _ _ Wa Wb E) as [H|H].
-  - destruct a, b; cbn in *; try discriminate; auto.
+  intros Ia Ib Wa Wb E. destruct (name_of_injective_any fixed _ _ Wa Wb E) as [H|H].
+  - destruct fixed; auto. destruct a, b; cbn in *; try discriminate; auto.
   - exfalso. destruct a, b; cbn in *; try discriminate; try contradiction.
     + destruct clos; try contradiction. destruct targs; cbn in *; try discriminate; contradiction.
     + destruct clos; try contradiction. destruct targs; cbn in *; try discriminate; contradiction.
@@ -559,39 +694,43 @@ Definition p_os : str := Eval vm_compute in lit "os"%string.
 (* F10: func c of package x/a.b, method c of type b of package x/a *)
 Definition w_dot_func : entity tys := ECore (EFunc p_xab i_c [] TsNil).
 Definition w_dot_meth : entity tys := ECore (EMethod p_xa false i_b TsNil i_c []).
-Lemma pkg_dot_witness :
-  w_dot_func <> w_dot_meth /\ link_name w_dot_func = link_name w_dot_meth
-  /\ link_name w_dot_func = lit "x/a.b.c"%string
+Lemma pkg_dot_witness fixed :
+  w_dot_func <> w_dot_meth /\ link_name fixed w_dot_func = link_name fixed w_dot_meth
+  /\ link_name fixed w_dot_func = lit "x/a.b.c"%string
   /\ wf_entity (render_ent w_dot_meth) = true
   /\ wf_path p_xab = false /\ forallb path_char p_xab = true.
-Proof. repeat split; try discriminate; reflexivity. Qed.
+Proof. destruct fixed; repeat split; try discriminate; reflexivity. Qed.
 
-(* method value wrappers compiled into package x for x/a.T.M and for x/b.T.M: both well formed *)
+(* before the fix: method value wrappers compiled into package x for x/a.T.M and for x/b.T.M,
+   both well formed, one name; with the fix: two names *)
 Definition w_wrap (rp : str) : entity tys := ECore (EWrap p_x WBound rp false i_T TsNil i_M).
 Lemma wrapper_witness :
-  w_wrap p_xa <> w_wrap p_xb /\ link_name (w_wrap p_xa) = link_name (w_wrap p_xb)
-  /\ link_name (w_wrap p_xa) = lit "x.T.M$bound"%string
-  /\ wf_entity (render_ent (w_wrap p_xa)) = true /\ wf_entity (render_ent (w_wrap p_xb)) = true.
+  w_wrap p_xa <> w_wrap p_xb /\ link_name false (w_wrap p_xa) = link_name false (w_wrap p_xb)
+  /\ link_name false (w_wrap p_xa) = lit "x.T.M$bound"%string
+  /\ wf_entity (render_ent (w_wrap p_xa)) = true /\ wf_entity (render_ent (w_wrap p_xb)) = true
+  /\ link_name true (w_wrap p_xa) = lit "x.(x/a.T).M$bound"%string
+  /\ link_name true (w_wrap p_xb) = lit "x.(x/b.T).M$bound"%string
+  /\ link_name true (w_wrap p_x) = lit "x.T.M$bound"%string.
 Proof. repeat split; try reflexivity. intros E. discriminate. Qed.
 
 (* a user function called _llgo_routine with a closure, and the first goroutine thunk *)
 Definition w_rt_func : entity tys := ECore (EFunc p_x s_routine [1] TsNil).
 Definition w_rt_thunk : entity tys := ECore (ERoutine p_x 1).
-Lemma routine_witness :
-  w_rt_func <> w_rt_thunk /\ link_name w_rt_func = link_name w_rt_thunk /\ wf_ident s_routine = true.
-Proof. repeat split; try reflexivity. discriminate. Qed.
+Lemma routine_witness fixed :
+  w_rt_func <> w_rt_thunk /\ link_name fixed w_rt_func = link_name fixed w_rt_thunk /\ wf_ident s_routine = true.
+Proof. destruct fixed; repeat split; try reflexivity; discriminate. Qed.
 
 (* package __llgo_stub, type T, method M  vs  the closure stub of func M of package T *)
 Definition w_stub_meth : entity tys := ECore (EMethod s_stub0 false i_T TsNil i_M []).
 Definition w_stub_stub : entity tys := EStubDecl (EFunc i_T i_M [] TsNil).
-Lemma stub_witness :
-  w_stub_meth <> w_stub_stub /\ link_name w_stub_meth = link_name w_stub_stub /\ wf_path s_stub0 = true.
-Proof. repeat split; try reflexivity. discriminate. Qed.
+Lemma stub_witness fixed :
+  w_stub_meth <> w_stub_stub /\ link_name fixed w_stub_meth = link_name fixed w_stub_stub /\ wf_path s_stub0 = true.
+Proof. destruct fixed; repeat split; try reflexivity; discriminate. Qed.
 
 (* by design: a package below the patch prefix takes the names of the package it patches *)
-Lemma patch_witness :
-  link_name (ECore (EFunc (s_patch ++ p_os) i_F [] TsNil)) = link_name (ECore (EFunc p_os i_F [] TsNil)).
-Proof. reflexivity. Qed.
+Lemma patch_witness fixed :
+  link_name fixed (ECore (EFunc (s_patch ++ p_os) i_F [] TsNil)) = link_name fixed (ECore (EFunc p_os i_F [] TsNil)).
+Proof. destruct fixed; reflexivity. Qed.
 
 (* ---------- the guard on program entities: no hypothesis on the rendered text ---------- *)
 
@@ -617,12 +756,23 @@ Qed.
 Lemma wf_prog_render e : wf_prog e = true -> wf_entity (render_ent e) = true.
 Proof. destruct e; cbn; auto using wf_prog_core_render. Qed.
 
-Lemma link_name_injective_prog e1 e2 :
+Lemma link_name_injective_prog fixed e1 e2 :
   wf_prog e1 = true -> wf_prog e2 = true ->
-  link_name e1 = link_name e2 -> same_entity (render_ent e1) (render_ent e2).
+  link_name fixed e1 = link_name fixed e2 -> same_entity fixed (render_ent e1) (render_ent e2).
 Proof. intros W1 W2. apply link_name_injective_lemma; now apply wf_prog_render. Qed.
 
-Lemma mergeable_prog a b :
+Lemma mergeable_prog fixed a b :
   is_instance a = true -> is_instance b = true -> wf_prog_core a = true -> wf_prog_core b = true ->
-  core_name a = core_name b -> render a = render b.
+  core_name fixed a = core_name fixed b -> render a = render b.
 Proof. intros Ia Ib Wa Wb. apply mergeable_lemma; auto using wf_prog_core_render. Qed.
+
+(* with the fix a wrapper's name determines the wrapper, receiver package included *)
+Lemma wrapper_determined cp1 k1 rp1 ptr1 t1 ta1 m1 cp2 k2 rp2 ptr2 t2 ta2 m2 :
+  wf_prog_core (EWrap cp1 k1 rp1 ptr1 t1 ta1 m1) = true -> wf_prog_core (EWrap cp2 k2 rp2 ptr2 t2 ta2 m2) = true ->
+  core_name true (EWrap cp1 k1 rp1 ptr1 t1 ta1 m1) = core_name true (EWrap cp2 k2 rp2 ptr2 t2 ta2 m2) ->
+  cp1 = cp2 /\ k1 = k2 /\ rp1 = rp2 /\ ptr1 = ptr2 /\ t1 = t2 /\ targs_text ta1 = targs_text ta2 /\ m1 = m2.
+Proof.
+  intros W1 W2 E. apply wf_prog_core_render in W1, W2.
+  destruct (name_of_injective _ _ W1 W2 E) as [H|H]; [|contradiction].
+  cbn in H. injection H as -> -> -> -> -> -> ->. repeat split.
+Qed.
